@@ -167,6 +167,13 @@ ThreadsAgree == \A p \in Readers : pc[p] = "open" =>
 NoLostUpdate == (\A p \in Procs : pc[p] # "syncing") => \A pg \in Pages : disk[pg] = commits
 \* C05 (page level): the disk changes only while a Sync flushes
 DiskOnlyInFlush == [][disk' # disk => \E p \in Procs, pg \in Pages : FlushPage(p, pg)]_vars
+\* C05 (page level): right after a Sync every cached page equals the disk (the handle's view is what any other
+\* handle would read); a crash / dropped handle never touches the disk
+SyncedEqualsView == \A p \in Procs : pc[p] = "synced" => \A pg \in Pages : cache[p][pg] # Unread => cache[p][pg] = disk[pg]
+CrashLeavesDisk == [][(\E p \in Procs : Crash(p)) => disk' = disk]_vars
+\* a clean (non-dirty) cached page is never stale while the lock is held: what a handle reads is the disk
+CleanPagesFresh == \A p \in Procs : (lock = p /\ pc[p] \in {"open", "synced"}) =>
+                     \A pg \in Pages : (cache[p][pg] # Unread /\ pg \notin dirty[p]) => cache[p][pg] = disk[pg]
 \* C13: a blocked Open eventually returns once the holder closes
 OpenReturns == \A p \in Procs : (pc[p] = "locking") ~> (pc[p] # "locking")
 =============================================================================
